@@ -408,6 +408,15 @@ Fixpoint fix_ok (x : sfix) : bool :=
   | XEnum ds => forallb (fun d => (0 <=? d) && (d <? 256)) ds
   end.
 
+(* K: Pod (unsized_map.rs 349-353): every bit pattern is a value *)
+Fixpoint fix_pod (x : sfix) : bool :=
+  match x with
+  | XPrim k => negb (k =? P_BOOL)
+  | XArray n x' => fix_pod x'
+  | XStruct fs => forallb fix_pod fs
+  | XEnum ds => false
+  end.
+
 Definition lw_ok (lw : nat) : bool := (lw =? 1)%nat || (lw =? 2)%nat || (lw =? 4)%nat || (lw =? 8)%nat.
 
 Fixpoint distinct (l : list Z) : bool :=
@@ -421,7 +430,7 @@ Fixpoint sty_ok (last : bool) (s : sty) {struct s} : bool :=
   | SString => true
   | SRem => last
   | SUList it => sty_ok false it
-  | SUMap k it => fix_ok k && sty_ok false it
+  | SUMap k it => fix_ok k && fix_pod k && sty_ok false it
   | SStruct sized fs =>
       forallb fix_ok sized &&
       (fix go (fs : list sty) : bool :=
